@@ -18,11 +18,15 @@ extern func golang.org/x/exp/slices.Insert(s, i, vs)
   ensures forall k in i + len(vs)..len(result): result[k] == old(s[k - len(vs)])
 
 pred Graphemes(m *Model) = forall i in 0..len(m.content): len(m.content[i].Grapheme) > 0
+-- in [lo, hi) the letters and digits come first: a word, then separators
+pred WordThenSeps(m *Model, lo int, hi int) = forall t in lo..hi: alnumC(m.content[t]) ==> (forall u in lo..t: alnumC(m.content[u]))
 pred MInv(m *Model) = 0 <= m.cursor && m.cursor <= len(m.content) && Graphemes(m)
 
+ufun alnumC(c vaxis.Character) bool
 func isAlphaNumeric(c vaxis.Character) bool
   requires len(c.Grapheme) > 0
   modifies nothing
+  deterministic alnumC
 
 func (m *Model) CursorPosition() int
   ensures result == m.cursor
@@ -69,6 +73,18 @@ func (m *Model) Update(msg vaxis.Event)
   -- Ctrl+w: the scan index is one left of the cursor
   loop 5 invariant scan: i == m.cursor - 1 && 0 <= m.cursor && m.cursor <= originalCursor && originalCursor == old(m.cursor) && Graphemes(m) && SameText(m)
   loop 6 invariant scan: i == m.cursor - 1 && 0 <= m.cursor && m.cursor <= originalCursor && originalCursor == old(m.cursor) && Graphemes(m) && SameText(m)
+  -- ... first over what is not a letter or digit, then over the word: what is deleted is a word followed by separators,
+  -- and the scan stops at the start of the line or at the start of that word
+  loop 5 invariant C17_seps: forall t in m.cursor..originalCursor: !alnumC(m.content[t])
+  loop 6 invariant C17_word: WordThenSeps(m, m.cursor, originalCursor)
+       && (m.cursor == 0 || alnumC(m.content[m.cursor - 1]) || (m.cursor < originalCursor && alnumC(m.content[m.cursor])))
+  ensures C17_killword: (KeyIs(msg, "Ctrl+w") && old(m.cursor) > 0) ==>
+        (m.cursor <= old(m.cursor) && len(m.content) == old(len(m.content)) - (old(m.cursor) - m.cursor)
+         && (forall k in 0..m.cursor: m.content[k] == old(m.content[k]))
+         && (forall d in old(m.cursor) - m.cursor..old(m.cursor) - m.cursor + 1: forall k in m.cursor..len(m.content): m.content[k] == oldat(m.content, k + d))
+         && (forall t in m.cursor..old(m.cursor): alnumC(oldat(m.content, t)) ==> (forall u in m.cursor..t: alnumC(oldat(m.content, u))))
+         && (m.cursor == 0 || !alnumC(oldat(m.content, m.cursor - 1)))
+         && (m.cursor == 0 || alnumC(oldat(m.content, m.cursor))))
   -- typed text: one cluster at a time at the cursor
   loop 7 invariant ins: -1 <= rangeindex && rangeindex < len(chars) && m.cursor == old(m.cursor) + rangeindex + 1 && len(m.content) == old(len(m.content)) + rangeindex + 1
                       && Graphemes(m) && (forall k in 0..len(chars): len(chars[k].Grapheme) > 0)
